@@ -276,13 +276,23 @@ type SexpArray struct {
 	Infix               bool
 
 	Env *Zlisp
+
+	// typing is set while Type() asks the first element for its type: an
+	// array can be its own first element (see aset), directly or through
+	// other arrays, and then has no type to take from it
+	typing bool
 }
 
 func (r *SexpArray) Type() *RegisteredType {
 	if r.Typ == nil {
+		if r.typing {
+			return nil
+		}
 		if len(r.Val) > 0 {
 			// take type from first element
+			r.typing = true
 			ty := r.Val[0].Type()
+			r.typing = false
 			if ty != nil {
 				r.Typ = GoStructRegistry.GetOrCreateSliceType(ty)
 			}
